@@ -1107,7 +1107,7 @@ def PLAN(tier):
     for e in range(EDITS):
         P.append(dict(fn='check_c01', shard=[e, 2 if q else 3], timeout=500 if q else 3000))
     for rel in (False, True):
-        for (fk, n, step) in ((0, 8, 4), (1, 8, 4), (2, 35 if q else 60, 5), (3, 8, 4), (4, 35 if q else 60, 5), (5, 8, 4)):
+        for (fk, n, step) in ((0, 8, 4), (1, 8, 4), (2, 20 if q else 60, 5), (3, 8, 4), (4, 20 if q else 60, 5), (5, 8, 4)):
             if q and rel and fk in (2, 3, 4):
                 continue
             for lo in range(0, n, step):
